@@ -1,5 +1,6 @@
 import TrackpyV.Model.Proto
 import TrackpyV.Model.Relocate
+import TrackpyV.Model.FindLinkAlgo
 import TrackpyV.Driver.Linker
 
 /-! Driver ops for C14 (find_link relocation).
@@ -11,6 +12,11 @@ import TrackpyV.Driver.Linker
       (pts in the order the code returns them: heaviest first)
 `FLRUN <linker cfg> ; t=0 | 1,2 3,4 | 0 1 | <added indices> ; ...`
    -> `verdict=ok` | `verdict=bad step=<k>`
+`FLSTEP <linker cfg> ; t=0 | 1,2 3,4 | 0 1 ; … (the labelled levels before the step) ; CUR t=3 | <handed detections> ; ORC <pos pos> | <cand cand> | <mass mass> ; ORC …`
+   one `FindLinker.next_level` by the model `FindLink.flAlgoStep`; the state is rebuilt from the
+   labelled levels with `nextState`; the oracle answers a call for the source positions `pos` (as a
+   set) with the recorded candidates of that call, `[]` (and `miss` + 1) for a set it was never asked
+   -> `ok dsts=<p;p> added=<i,i> labels=<l,l> fresh=<first unused label> miss=<k> unused=<k> tied=<0|1> capped=<0|1> oversize=<0|1> groups=<n> short=<n> merged=<n>`
 -/
 namespace TrackpyV.Driver.C14
 open TrackpyV.Proto TrackpyV.Find TrackpyV.Relocate
@@ -85,7 +91,63 @@ def handleFLRun (rest : String) : String :=
       | some k => s!"verdict=bad step={k}"
     | _, _ => "bad-op"
 
+open TrackpyV.Linker TrackpyV.FindLink in
+/-- are two position lists equal as sets -/
+def sameSet (a b : List Linker.Pos) : Bool :=
+  a.length == b.length && a.all (fun x => b.contains x) && b.all (fun x => a.contains x)
+
+structure OrcEntry where
+  pos : List Linker.Pos
+  cands : List FindLink.RFeat
+
+def parseOrc? (s : String) : Option OrcEntry := do
+  match splitKeep s "|" with
+  | [ps, cs, ms] =>
+    let pos ← parseAll (fun p => intList? p) (words ps)
+    let cands ← parseAll (fun p => intList? p) (words cs)
+    let masses ← parseAll parseNat? (words ms)
+    if cands.length != masses.length then none else
+    some { pos := pos, cands := cands.zip masses }
+  | _ => none
+
+/-- the oracle instantiated by the recorded calls -/
+def tableOracle (tab : List OrcEntry) : FindLink.Oracle := fun _ pos =>
+  match tab.find? (fun e => sameSet e.pos pos) with
+  | some e => e.cands
+  | none => []
+
+open TrackpyV.Linker TrackpyV.FindLink in
+def handleFLStep (rest : String) : String :=
+  match splitKeep rest ";" with
+  | [] => "bad-op"
+  | c :: items =>
+    let lvS := items.filter (fun x => !(x.startsWith "CUR") && !(x.startsWith "ORC") && x != "")
+    let curS := items.filter (fun x => x.startsWith "CUR")
+    let orcS := items.filter (fun x => x.startsWith "ORC")
+    match Driver.Linker.parseCfg? c, parseAll Driver.Linker.parseLevel? lvS, curS,
+          parseAll (fun x => parseOrc? (x.drop 3).toString) orcS with
+    | some cfg, some (l0 :: levels), [cur], some tab =>
+      match splitKeep (cur.drop 3).toString "|" with
+      | [ts, cs] =>
+        match ((Driver.Linker.parseKV ts).lookup "t").bind parseInt?,
+              parseAll (fun p => intList? p) (words cs) with
+        | some t, some dsts =>
+          let st0 := nextState initCfg { srcs := [], used := [] } l0.t l0.dsts (l0.labels.getD [])
+          let st := levels.foldl (fun st l => nextState cfg st l.t l.dsts (l.labels.getD [])) st0
+          let orc := tableOracle tab
+          let out := flAlgoStep cfg st t orc dsts
+          let gs := flGroups cfg st t dsts
+          let g1 := groups1 cfg st t dsts
+          let keys := (gs.filter short).map (fun g => g.1.map (viewOf cfg st t))
+          let miss := (keys.filter (fun k => !(tab.any (fun e => sameSet e.pos k)))).length
+          let unused := (tab.filter (fun e => !(keys.any (fun k => sameSet e.pos k)))).length
+          let b := fun (x : Bool) => if x then 1 else 0
+          s!"ok dsts={showIPts out.dsts} added={showNatList out.added} labels={showNatList out.labels} fresh={freshBase st} miss={miss} unused={unused} tied={b (stepTied cfg st t out.dsts)} capped={b (cappedB cfg st t out.dsts)} oversize={b (oversizeB cfg (stepGroups cfg st t out.dsts) || gs.any (fun g => decide (g.1.length > cfg.maxSize)))} groups={gs.length} short={(gs.filter short).length} merged={g1.length - gs.length}"
+        | _, _ => "bad-op"
+      | _ => "bad-op"
+    | _, _, _, _ => "bad-op"
+
 def handlers : List (String × (String → String)) :=
-  [("RELOC", handleReloc), ("FLRUN", handleFLRun)]
+  [("RELOC", handleReloc), ("FLRUN", handleFLRun), ("FLSTEP", handleFLStep)]
 
 end TrackpyV.Driver.C14
